@@ -7,6 +7,7 @@ import (
 	"go/constant"
 	"go/token"
 	"go/types"
+	"os"
 	"strings"
 	"unsafe"
 
@@ -105,7 +106,34 @@ type Intrinsic func(x *Exec, args []Value) Value
 
 var intrinsics = map[string]Intrinsic{}
 
+var dbgIns = os.Getenv("GOITSYM_INS")
+
+// assignInPlace stores src into *dst. Structs and arrays are overwritten element by element, so that addresses of
+// fields taken before the store (go/ssa computes &p.f first and then stores the zero value through p) stay valid.
+func assignInPlace(dst *Value, src Value) {
+	switch s := src.(type) {
+	case Struct:
+		if d, ok := (*dst).(Struct); ok && len(d) == len(s) {
+			for i := range s {
+				assignInPlace(&d[i], s[i])
+			}
+			return
+		}
+	case Array:
+		if d, ok := (*dst).(Array); ok && len(d) == len(s) {
+			for i := range s {
+				assignInPlace(&d[i], s[i])
+			}
+			return
+		}
+	}
+	*dst = copyVal(src)
+}
+
 func (x *Exec) gopanic(format string, a ...interface{}) {
+	if dbgWhere {
+		fmt.Fprintf(os.Stderr, "gopanic %s at %s\n", fmt.Sprintf(format, a...), strings.Join(x.c.dbgStack, " > "))
+	}
 	panic(goPanic{msg: fmt.Sprintf(format, a...)})
 }
 
@@ -262,6 +290,9 @@ func (x *Exec) run(fr *Frame) Value {
 	var prev *ssa.BasicBlock
 	block := fr.fn.Blocks[0]
 	maxBack := x.c.cfg.MaxBackEdges
+	if v := x.params["maxBackEdges"]; v > 0 {
+		maxBack = v // per-harness unwinding bound (kernels over large concrete data)
+	}
 	for {
 		// phis
 		nphi := 0
@@ -292,6 +323,12 @@ func (x *Exec) run(fr *Frame) Value {
 		}
 		var next *ssa.BasicBlock
 		for _, ins := range block.Instrs[nphi:] {
+			if dbgIns != "" && strings.Contains(fr.fn.String(), dbgIns) {
+				fmt.Fprintf(os.Stderr, "  [%s] %s\n", fr.fn.Name(), ins)
+				if v, ok := ins.(ssa.Value); ok {
+					defer func(v ssa.Value) { fmt.Fprintf(os.Stderr, "      %s = %#v\n", v.Name(), fr.env[vkey(v)]) }(v)
+				}
+			}
 			switch ins := ins.(type) {
 			case *ssa.If:
 				cond := fr.get(x, ins.Cond).(*Term)
@@ -452,7 +489,7 @@ func (x *Exec) instr(fr *Frame, ins ssa.Instruction) {
 		if p == nil {
 			x.gopanic("invalid memory address or nil pointer dereference (store)")
 		}
-		*p = copyVal(fr.get(x, ins.Val))
+		assignInPlace(p, fr.get(x, ins.Val))
 	case *ssa.ChangeType:
 		fr.env[vkey(ins)] = fr.get(x, ins.X)
 	case *ssa.ChangeInterface:
@@ -1137,6 +1174,27 @@ func (x *Exec) builtin(b *ssa.Builtin, args []Value, cc *ssa.CallCommon) Value {
 		return nil
 	case "print", "println":
 		return nil
+	case "min", "max":
+		// integer operands (Go 1.21 builtins); signedness from the static type of the call
+		if t0, ok := args[0].(*Term); ok && cc != nil {
+			ii, okT := basicInfo(cc.Args[0].Type())
+			if okT {
+				r := t0
+				for _, a := range args[1:] {
+					t := a.(*Term)
+					op := OpUlt
+					if ii.signed {
+						op = OpSlt
+					}
+					lt := st.Cmp(op, t, r) // t < r
+					if b.Name() == "max" {
+						lt = st.Cmp(op, r, t) // r < t
+					}
+					r = st.Ite(lt, t, r)
+				}
+				return r
+			}
+		}
 	case "ssa:wrapnilchk":
 		p, _ := args[0].(*Value)
 		if p == nil {
